@@ -173,10 +173,21 @@ try:
         out["index"] = {"keys": {str(int(k)): v for k, v in akm.items()},
                         "names": {n: {str(v): {t.name: p for t, p in tm.items()} for v, tm in vm.items()}
                                   for n, vm in snm.items()}}
+        # the index *as written*: the text `generate_index.main()` emits, executed
+        try:
+            text = "\n".join([gi.module_setup, *gi.format_api_key_map(akm), *gi.format_schema_name_map(snm)])
+            ns = {}
+            exec(compile(text, "index_as_written.py", "exec"), ns)
+            out["index_written"] = {
+                "keys": {str(int(k)): v for k, v in ns["api_key_map"].items()},
+                "names": {n: {str(v): {t.name: p for t, p in tm.items()} for v, tm in vm.items()}
+                          for n, vm in ns["schema_name_map"].items()}}
+        except BaseException as e:
+            out["index_written_error"] = f"{type(e).__name__}: {e}"
     except BaseException as e:
         out["index_error"] = f"{type(e).__name__}: {e}"
 except BaseException as e:
-    out["gen_error"] = f"{type(e).__name__}: {e}"
+    out["gen_error"] = f"{type(e).__name__}: {e} || " + traceback.format_exc()[-1500:]
 import gendefs
 root = os.path.join(scratch, "src", "kio", "schema")
 for api in sorted(os.listdir(root)):
@@ -211,10 +222,11 @@ try:
                 and dataclasses.is_dataclass(c) and c.__type__.name != "nested"]
         for c in tops:
             g = G.Gen(rng, codes, big_strings=False)
-            for _ in range(2):
+            for k in range(3):
                 rec = {"module": name, "class": c.__name__}
                 try:
-                    a = g.instance(c, budget=10)
+                    # (the third instance has no field at its default: every tagged field is on the wire)
+                    a = g.instance(c, budget=10, default_prob=0.0 if k == 2 else None)
                     rec["value"] = V.render(a)
                     obj = V.build(a, c)
                     b = io.BytesIO(); entity_writer(c)(b, obj)
